@@ -61,6 +61,10 @@ CLAIMED["C30"] = dict(engine="E1", technique="CBMC function contracts + loop con
     text="Proof for all 2^32 wait statuses and all sequential orders of child exit, handler and waitpid (handler before, inside via EINTR, or after the blocking waitpid; child reaped by either): setProcessExitStatus records exit value or signal death exactly as the kernel status says; the handler keeps every registered process record consistent; "
          "wait returns only once the child is reaped and the recorded status is the child's; execute succeeds exactly when the child exited with status 0. True parallel execution of the handler on another thread (data race, mutex) is not modelled; createProcess/pipe plumbing is a stub.",
     note=TB_E1 + " waitpid/closeProcessFiles/findProcess/createProcess are assumed-contract stubs; a process's pid is its identity (no pid reuse); at most 16 registered processes in the ghost arrays; glibc's WIFSIGNALED narrowing conversion is exempt from --conversion-check.")
+CLAIMED["C09"] = dict(engine="E1", technique="CBMC function contracts on the extracted text of BissectionAlgorithmBase (haveSameSign, updateBounds, getNextRootEstimate, iterate) and a loop contract (inductive invariant + decreases) on the main loop of scalarNewtonRaphson, which is verified against the members' contracts; user function and criterion are nondeterministic stubs with ghost evaluation records; doubles bit-precise (NaN, infinities, overflow)",
+    text="Proof for all doubles, all iteration budgets and arbitrary (even non-deterministic) user functions and criteria: convergence is reported only at a finite root at which the function was actually evaluated to a finite value and the criterion accepted exactly that (value, root, iteration); the iteration count never exceeds im and evaluations are bounded by 3+2*iterations; the loop terminates; "
+         "a valid bracket stays valid and only shrinks, non-finite evaluations never enter it, every estimate produced by getNextRootEstimate/iterate lies inside it, hence once a valid sign-changing bracket [xmin0,xmax0] is supplied every later evaluation of the user function is inside it.",
+    note=TB_E1 + " ieee754::isfinite/isnan/fpclassify are replaced by CBMC's predicates (equality proved in C16); the float and long double instantiations are not covered (double only).")
 
 NOT_APPLICABLE = {
     "C03": "floating-point tolerance statement about iterative eigen-solvers (Jacobi/QL/Cardano with cos/acos); no contract within reach of CBMC-C or the real-arithmetic VC generator expresses it",
